@@ -15,6 +15,7 @@ from __future__ import annotations
 
 import hashlib
 import json
+import os
 
 from vcore import REPO, VERIF, hexs, pyres
 
@@ -256,16 +257,22 @@ def rom_line(spec, file_bytes, enc=None, rights=None, pck=None):
             f"{int(spec['enc'] if enc is None else enc)} {rk.hex()} {hexs(file_bytes)}")
 
 
-def check_history(ck, drv, s, spec, tamper=None):
+def check_history(ck, drv, s, spec, tamper=None, builder=None, preloaded=()):
     """Run one history (spec['ops']) on a real SecureBinary31 and on the model; oracle on every export.
 
-    Returns the list of exported files."""
+    `builder(spec)` -> (SecureBinary31, cert bytes, hash length) (default: the API constructor path); `preloaded` are the
+    commands the builder has already put into the object (configuration path).  Returns the list of exported files."""
     inp = spec
-    built = pyres(build_real, spec)
+    built = pyres(builder or build_real, spec)
     if built[0] != "ok":
         s.expect(False, inp, "a well-formed container specification cannot be built", built)
         return []
     sb, cert, hl = built[1]
+    # timestamp 0 (like None) means "now": the object's own value is what header and key derivation must agree on
+    eff_ts = pyres(lambda: int(sb.timestamp))
+    if eff_ts[0] != "ok" or not s.expect(spec["ts"] == 0 or eff_ts[1] == spec["ts"], inp, "the object does not keep the timestamp it was given", eff_ts, spec["ts"]):
+        return []
+    spec = dict(spec, ts=eff_ts[1])
     es = pyres(lambda: sb.cert_block.expected_size)
     s.expect(es == ("ok", len(cert)), inp, "cert_block.expected_size differs from the exported certificate block length", es, len(cert))
     model = drv is not None
@@ -275,6 +282,10 @@ def check_history(ck, drv, s, spec, tamper=None):
         if not s.compare((inp, "new"), "ok", a, "constructor: model refuses a container the implementation builds"):
             model = False
     cmds, files, nexp = [], [], 0
+    for c in preloaded:
+        cmds.append(list(c))
+        if model:
+            drv.ask("add " + " ".join(c))
     sign_pub = raw_pub(spec["isk_curve"], "imgkey") if spec["isk_curve"] else raw_pub(spec["root_curve"], f"srk{spec['used']}")
     root_pub = raw_pub(spec["root_curve"], f"srk{spec['used']}")
     for op in spec["ops"]:
@@ -356,6 +367,201 @@ def gen_ops(rng, cmds, nexports):
     return ops
 
 
+
+# ------------------------------------------------------------------------------------------------ configuration / CLI glue
+KEY_WRAP = {1: {"NXP_CUST_KEK_INT_SK": 16, "NXP_CUST_KEK_EXT_SK": 17}, 2: {"NXP_CUST_KEK_INT_SK": 18, "NXP_CUST_KEK_EXT_SK": 19}}
+CFG_FAMILIES = {"lpc55s36": 1, "mcxn947": 2}  # family -> key wraps version (spsdk/data/devices/*/database.yaml)
+COUNTER_IDS = ["none", "nonsecure", "secure", "radio", "snt", "bootloader"]
+CLI_KINDS = ["erase", "load", "execute", "fuses", "ifr", "cmac", "copy", "hashlock", "keyblob", "cfgmem", "fill", "fwcheck"]
+
+
+def _num(rng, v):
+    """a number the way configurations spell it: int, decimal string, hex string."""
+    return rng.choice([v, str(v), hex(v), hex(v).upper().replace("0X", "0x")])
+
+
+def _min_le(v):
+    """value_to_bytes(v, little): minimal length, lengths above 2 rounded up to a multiple of 4."""
+    n = max(1, (v.bit_length() + 7) // 8)
+    if n > 2:
+        n = (n + 3) // 4 * 4
+    return v.to_bytes(n, "little")
+
+
+def gen_cfg_cmd(rng, kind, family, tmp, idx):
+    """-> (YAML item {name: {...}}, expected command as driver tokens) for one command kind and one of its YAML forms."""
+    u = lambda: rnd_u32(rng)  # noqa: E731
+
+    def datafile(data, hexform=False):
+        f = tmp / f"d{idx}_{rng.getrandbits(32):08x}.{'txt' if hexform else 'bin'}"
+        if hexform:
+            f.write_text(data.hex())
+        else:
+            f.write_bytes(data)
+        return f.name
+
+    def words():
+        ws = [rnd_u32(rng) for _ in range(rng.choice([1, 1, 2, 4, 5]))]
+        if len(ws) == 1 and ws[0] and rng.random() < 0.5:
+            return ws[0], b"".join(w.to_bytes(4, "little") for w in ws)  # a bare int
+        return ",".join(rng.choice([str(w), hex(w)]) for w in ws), b"".join(w.to_bytes(4, "little") for w in ws)
+
+    dl = rng.choice([1, 4, 15, 16, 17, 33, 100, 256, 300])
+    a, m = u(), rng.choice([0, 0, 1, rnd_u32(rng)])
+    mem = {} if m == 0 and rng.random() < 0.5 else {"memoryId": _num(rng, m)}
+    if kind == "erase":
+        ln = u()
+        return {"erase": {"address": _num(rng, a), "size": _num(rng, ln), **mem}}, ["erase", str(a), str(ln), str(m)]
+    if kind in ("load", "cmac", "hashlock"):
+        data = rng.randbytes(dl)
+        form = rng.choice(["file", "file", "values", "value"]) if kind == "load" else "file"
+        if kind != "load" and rng.random() < 0.4:  # backward compatible spelling: load + authentication
+            return ({"load": {"address": _num(rng, a), "file": datafile(data), "authentication": {"cmac": "cmac", "hashlock": "hashlocking"}[kind], **mem}},
+                    [kind, str(a), str(m), hexs(data)])
+        name = {"load": "load", "cmac": "loadCMAC", "hashlock": "loadHashLocking"}[kind]
+        if form == "values":
+            txt, data = words()
+            return {name: {"address": _num(rng, a), "values": txt, **mem}}, [kind, str(a), str(m), hexs(data)]
+        if form == "value":
+            v = rng.choice([1, 0xFF, 0x1234, 0x123456, rng.getrandbits(32) or 1, rng.getrandbits(64) or 1])
+            return {name: {"address": _num(rng, a), "value": _num(rng, v), **mem}}, [kind, str(a), str(m), hexs(_min_le(v))]
+        return {name: {"address": _num(rng, a), "file": datafile(data), **mem}}, [kind, str(a), str(m), hexs(data)]
+    if kind in ("execute", "call"):
+        return {kind: {"address": _num(rng, a)}}, [kind, str(a)]
+    if kind == "fuses":
+        txt, data = words()
+        return {"programFuses": {"address": _num(rng, a), "values": txt}}, ["fuses", str(a), hexs(data)]
+    if kind == "ifr":
+        form = rng.choice(["file", "values", "value"])
+        if form == "file":
+            data = rng.randbytes(dl)
+            return {"programIFR": {"address": _num(rng, a), "file": datafile(data)}}, ["ifr", str(a), hexs(data)]
+        if form == "values":
+            txt, data = words()
+            return {"programIFR": {"address": _num(rng, a), "values": txt}}, ["ifr", str(a), hexs(data)]
+        v = rng.choice([1, 0xFFFF, 0x10000, rng.getrandbits(32) or 1])
+        return {"programIFR": {"address": _num(rng, a), "value": _num(rng, v)}}, ["ifr", str(a), hexs(_min_le(v))]
+    if kind == "copy":
+        ln, dst, mf, mt = u(), u(), rng.choice([0, 1, rnd_u32(rng)]), rng.choice([0, 1, rnd_u32(rng)])
+        return ({"copy": {"addressFrom": _num(rng, a), "memoryIdFrom": _num(rng, mf), "size": _num(rng, ln), "addressTo": _num(rng, dst),
+                          "memoryIdTo": _num(rng, mt)}}, ["copy", str(a), str(ln), str(dst), str(mf), str(mt)])
+    if kind == "keyblob":
+        data = rng.randbytes(rng.choice([16, 32, 48, 5]))
+        wname = rng.choice(["NXP_CUST_KEK_INT_SK", "NXP_CUST_KEK_EXT_SK"])
+        off = rng.choice([0, 4, 0xFFFF, rng.getrandbits(16)])
+        hexform = rng.random() < 0.4
+        item = {"offset": _num(rng, off), "wrappingKeyId": wname, "file": datafile(data, hexform)}
+        if hexform:
+            item["plainInput"] = "hex"
+        elif rng.random() < 0.5:
+            item["plainInput"] = rng.choice(["bin", "no"])
+        return {"loadKeyBlob": item}, ["keyblob", str(off), str(KEY_WRAP[CFG_FAMILIES[family]][wname]), hexs(data)]
+    if kind == "cfgmem":
+        return {"configureMemory": {"configAddress": _num(rng, a), "memoryId": _num(rng, m)}}, ["cfgmem", str(a), str(m)]
+    if kind == "fill":
+        ln, pat = u(), u()
+        return {"fillMemory": {"address": _num(rng, a), "size": _num(rng, ln), "pattern": _num(rng, pat)}}, ["fill", str(a), str(ln), str(pat)]
+    if kind == "fwcheck":
+        cid = rng.randrange(6)
+        return {"checkFwVersion": {"value": _num(rng, a), "counterId": COUNTER_IDS[cid]}}, ["fwcheck", str(a), str(cid)]
+    return {"reset": {}}, ["reset"]
+
+
+def gen_config(rng, spec, family, kinds, tmp):
+    """configuration dictionary (what a YAML/JSON file holds) for `spec` + generated commands; -> (config, expected commands)."""
+    rc = spec["root_curve"]
+    cfg = {"family": family, "containerOutputFile": str(tmp / "out.sb3")}
+    for i in range(spec["nroots"]):
+        cfg[f"rootCertificate{i}File"] = str(KEYS / f"ecc{rc}" / f"srk{i}_ecc{rc}.pub")
+    cfg["mainRootCertId"] = spec["used"]
+    cfg["mainRootCertPrivateKeyFile"] = str(key_path(rc, f"srk{spec['used']}"))
+    if spec["isk_curve"]:
+        ic = spec["isk_curve"]
+        cfg.update(useIsk=True, signingCertificateFile=str(KEYS / f"ecc{ic}" / f"imgkey_ecc{ic}.pub"), signPrivateKey=str(key_path(ic, "imgkey")))
+        if spec["user_data"] != "-":
+            (tmp / "userdata.bin").write_bytes(bytes.fromhex(spec["user_data"]))
+            cfg["signCertData"] = "userdata.bin"
+    else:
+        cfg["useIsk"] = False
+    if spec["enc"]:
+        if rng.random() < 0.5:
+            (tmp / "pck.txt").write_text(spec["pck"])
+            cfg["containerKeyBlobEncryptionKey"] = "pck.txt"
+        else:
+            cfg["containerKeyBlobEncryptionKey"] = spec["pck"]
+        cfg["kdkAccessRights"] = spec["rights"]
+    else:
+        cfg["isEncrypted"] = False
+    cfg["firmwareVersion"] = _num(rng, spec["fw"])
+    cfg["containerConfigurationWord"] = _num(rng, spec["flags"])
+    if spec["desc"]:
+        cfg["description"] = spec["desc"]
+    if spec["nxp"]:
+        cfg["isNxpContainer"] = True
+    cfg["timestamp"] = _num(rng, spec["ts"])
+    items, expected = [], []
+    for i, k in enumerate(kinds):
+        it, exp = gen_cfg_cmd(rng, k, family, tmp, i)
+        items.append(it)
+        expected.append(exp)
+    cfg["commands"] = items
+    return cfg, expected
+
+
+def build_from_config(cfg, tmp):
+    def b(_spec):
+        import copy
+        from spsdk.sbfile.sb31.images import SecureBinary31
+        sb = SecureBinary31.load_from_config(copy.deepcopy(cfg), search_paths=[str(tmp)])
+        return sb, sb.cert_block.export(), sb.signature_provider.signature_length // 2
+    return b
+
+
+def run_cli(cfg, tmp):
+    """`nxpimage sb31 export -c <file>` through click's CliRunner -> bytes of the produced file."""
+    from click.testing import CliRunner
+    from spsdk.apps import nxpimage
+    path = tmp / "cfg.json"
+    path.write_text(json.dumps(cfg, indent=1))
+    out = tmp / "out.sb3"
+    if out.exists():
+        out.unlink()
+    r = CliRunner().invoke(nxpimage.main, ["sb31", "export", "-c", str(path)])
+    if r.exit_code != 0 or not out.exists():
+        raise RuntimeError(f"nxpimage sb31 export: exit {r.exit_code}: {(r.output or '')[-300:]} {r.exception!r}")
+    return out.read_bytes()
+
+
+def run_config_case(ck, drv, sg, spec):
+    """One configuration case: spec carries `cfg` (dictionary as in a YAML/JSON file), `cfg_files` (name -> hex content of
+    the data files next to it), `cfg_expected` (the commands it means) and `cfg_cli` (also go through the CLI)."""
+    import shutil
+    import tempfile
+    from pathlib import Path
+    tmp = Path(tempfile.mkdtemp(prefix="c05cfg-", dir=os.environ.get("VERIF_SCRATCH") or None))
+    try:
+        for name, hx in spec["cfg_files"].items():
+            (tmp / name).write_bytes(bytes.fromhex(hx))
+        cfg = dict(spec["cfg"], containerOutputFile=str(tmp / "out.sb3"))
+        expected = [list(c) for c in spec["cfg_expected"]]
+        files = check_history(ck, drv, sg, spec, builder=build_from_config(cfg, tmp), preloaded=expected)
+        if spec.get("cfg_cli") and files and drv is not None:
+            ref, hl, total = files[0]
+            res = pyres(run_cli, cfg, tmp)
+            if not sg.expect(res[0] == "ok", (spec, "cli"), "nxpimage sb31 export fails on a configuration that load_from_config accepts", res):
+                return
+            data = res[1]
+            rom = parse_rom(drv.ask(rom_line(spec, data)))
+            if sg.expect(rom is not None, (spec, "cli"), "the ROM model refuses the file written by `nxpimage sb31 export`"):
+                sg.expect(rom["cmds"] == [" ".join(c) for c in expected], (spec, "cli"), "CLI: decoded commands differ from the configuration", rom["cmds"][:6])
+                sg.expect(all(ecdsa_ok(*o) for o in rom["obs"]), (spec, "cli"), "CLI: a signature obligation does not verify")
+            # same header | hash and same data blocks as the API path (signatures are random)
+            sg.expect(data[:60 + hl] == ref[:60 + hl] and data[total:] == ref[total:] and len(data) == len(ref), (spec, "cli"),
+                      "`nxpimage sb31 export` and load_from_config().export() disagree outside the signatures")
+    finally:
+        shutil.rmtree(tmp, ignore_errors=True)
+
+
 # ------------------------------------------------------------------------------------------------ run
 def run(ck, only=None):
     import logging
@@ -377,7 +583,10 @@ def run(ck, only=None):
         t = ck.stream("replay_tamper", "replayed history (key dependence)")
         for spec in only:
             s.note(spec)
-            check_history(ck, drv, s, spec, tamper=t)
+            if "cfg" in spec:
+                run_config_case(ck, drv, s, spec)
+            else:
+                check_history(ck, drv, s, spec, tamper=t)
         return
 
     # ---------------- 0. corpus: past failures first
@@ -494,6 +703,35 @@ def run(ck, only=None):
             rom = parse_rom(drv.ask(rom_line(spec, bytes(mut))))
             detected = rom is None or not all(ecdsa_ok(*o) for o in rom["obs"])
             st.expect(detected, (spec, pos, bit), f"a corrupted byte in the {region} region is accepted by the ROM model (not covered by signature + hash chain)")
+    # ---------------- 4. glue: configuration dictionaries (YAML/JSON) -> load_from_config -> export, and the nxpimage CLI
+    sg = ck.stream("config_glue", "generated configurations (every command kind in each of its YAML forms: file / values / value / authentication "
+                   "spelling, numbers as int / decimal / hex strings, memoryId present or defaulted, key wrap names for key-wraps v1 and v2 families, "
+                   "PCK as hex string or file, ISK / no ISK, encrypted / plain) through SecureBinary31.load_from_config: real bytes vs model bytes for the "
+                   "commands the configuration MEANS (computed by the harness from the YAML semantics), ROM model decodes exactly those commands and the "
+                   "configured header values; a subset also through `nxpimage sb31 export` (click CliRunner, schema validation included) and compared with "
+                   "the API path outside the signatures; non-trivial = distinct configuration")
+    import shutil
+    import tempfile
+    from pathlib import Path
+    n_cfg, n_cli = ck.budget(42, 1400), ck.budget(6, 120)
+    for n in range(n_cfg):
+        family = rng.choice(sorted(CFG_FAMILIES))
+        cli = n < n_cli
+        pool = CLI_KINDS if cli else KINDS
+        kinds = [pool[n % len(pool)]] + [rng.choice(pool) for _ in range(rng.choice([0, 1, 3, 6]))]
+        rng.shuffle(kinds)
+        spec = gen_spec(rng, ops=[["export"]] + ([["export"]] if rng.random() < 0.3 else []))
+        if cli:
+            spec["nxp"] = False
+        tmp = Path(tempfile.mkdtemp(prefix="c05gen-", dir=os.environ.get("VERIF_SCRATCH") or None))
+        try:
+            cfg, expected = gen_config(rng, spec, family, kinds, tmp)
+            spec.update(cfg=dict(cfg, containerOutputFile="out.sb3"), cfg_expected=expected, cfg_cli=cli,
+                        cfg_files={f.name: f.read_bytes().hex() for f in sorted(tmp.iterdir()) if f.is_file()})
+        finally:
+            shutil.rmtree(tmp, ignore_errors=True)
+        sg.note(spec, cls=f"{'cli' if cli else 'api'}/{family}/{kinds[0]}")
+        run_config_case(ck, drv, sg, spec)
     logging.disable(logging.NOTSET)
 
 
